@@ -82,6 +82,21 @@ def analyse_switch_fn(program, rep):
             continue
         to_w = f'{th}()'
         conds = {e.sym.text: e.extra for e in tr if e.kind == 'cond'}
+        # clear_next: the target is cleared, before it is loaded, exactly
+        # when the flag is set (the events below must reach the instance
+        # that is going to run)
+        cn = conds.get('clear_next')
+        if cn is True and not (clears and clears[0] < loads[0]):
+            flag('order', f.node, 'clear_next is set but the target handle '
+                 'is not cleared before it is loaded: the entered handle '
+                 'does not yield a fresh world instance')
+        if cn is False and clears:
+            flag('order', tr[clears[0]].node, 'the target handle is cleared '
+                 'although clear_next is not set: every switch discards the '
+                 'cached world of the target')
+        if cn is None and clears:
+            flag('order', tr[clears[0]].node, 'the target handle is cleared '
+                 'on a path that has not tested clear_next')
         disp = [(i, e) for i, e in _calls(tr) if isinstance(
             e.sym.node.func, ast.Attribute) and e.sym.node.func.attr
             == 'dispatch']
@@ -143,8 +158,10 @@ def analyse_switch_fn(program, rep):
                 flag('order', e_in.node, 'on_switch_in names a different '
                      '"from" world than the one that got on_switch_out')
         else:
-            # only legal when there is no world to leave
+            # only legal when there is no world to leave: none was given
+            # and the running loop has none either
             none_known = any(t.endswith(' is None') and v is True
+                             and 'current_world' in t
                              for t, v in conds.items())
             if not none_known:
                 flag('order', f.node, 'a path of switch() with a world to '
